@@ -23,7 +23,7 @@ Inductive vaction :=
     (1 transport closed, 2 context, 3 write, 4 read, 5 unexpected response, 6 dial). *)
 Inductive vev := EvWrite (c n : nat) | EvDial (c : nat) | EvRet (c : nat) (k a : N).
 
-Record vobs := mkVObs { v_events : list vev; v_conns : N; v_idle : N }.
+Record vobs := mkVObs { v_events : list vev; v_conns : N; v_idle : N; v_open : N }.   (* v_open: sockets dialled for the transport and not closed *)
 
 Inductive case := CReuse (script : list (vaction * vobs)) (fin_blocked : list nat).
 
@@ -167,7 +167,8 @@ Fixpoint exec_vscript (all : list nat) (s : xst) (held : list nat) (sc : list (v
       match advance_all s1 held1 (v_events o) with
       | Some s2 =>
         let ok := forallb (at_rest s2 held1) all
-                  && (N.of_nat (length (cset s2)) =? v_conns o) && (N.of_nat (length (idle s2)) =? v_idle o) in
+                  && (N.of_nat (length (cset s2)) =? v_conns o) && (N.of_nat (length (idle s2)) =? v_idle o)
+                  && (N.of_nat (length (cset s2)) =? v_open o) in
         match exec_vscript all s2 held1 t with
         | Some (s3, ok3) => Some (s3, ok && ok3)
         | None => None
@@ -259,7 +260,10 @@ Fixpoint spec_walk (c01 c02 c09 : bool) (tk : vtrk) (sc : list (vaction * vobs))
          k)
       end in
     let '(ok_e, tk2) := fold_left step_ev (v_events o) (true, tk1) in
-    ok_a && ok_e && spec_walk c01 c02 c09 tk2 t
+    (* C09, capacity is never lost: every tracked connection that is not available to new queries carries a
+       written, unanswered query (limit 1: a live connection without one admits a query) *)
+    let ok_cap := negb c09 || (v_conns o - v_idle o <=? N.of_nat (length (vt_outst tk2))) in
+    ok_a && ok_e && ok_cap && spec_walk c01 c02 c09 tk2 t
   end.
 
 Definition spec_gen (c01 c02 c09 : bool) (c : case) : bool :=
@@ -300,6 +304,9 @@ Fixpoint c07v_walk (closed : bool) (late : list nat) (sc : list (vaction * vobs)
                       | EvRet c kd v => if gmem c late1 then (kd =? 1) && (v =? 1) else true
                       | EvWrite c _ | EvDial c => negb (gmem c late1)
                       end) (v_events o)
+    (* every connection the transport created is tracked by it while open, and released by Close
+       (also one whose dial completes after Close) *)
+    && (v_open o <=? v_conns o) && (if closed1 then v_open o =? 0 else true)
     && c07v_walk closed1 late1 t
   end.
 Definition spec_c07 (c : case) : bool :=
